@@ -6,7 +6,8 @@
    [reachable s] quantifies over EVERY finite action list from the empty ledger: any number of concurrent create /
    revert / metadata requests, any interleaving of their steps, any batch composition, store failures and crashes
    at every point, cancellation of any unfinished request at any point, and a cancelled waiter giving up at any
-   later point (before or after a releaser granted it the locks). *)
+   later point (before or after a releaser granted it the locks), and a transient failure of any store read of the
+   write path ([AResumeReadFail t]: the read the region thread t runs next performs fails). *)
 From FL Require Import Engine.Model Engine.Spec Engine.E5Lock.
 Open Scope nat_scope.
 
@@ -111,6 +112,48 @@ Theorem C02c_release_shape : forall s t, reachable s ->
 Proof. exact (fun s t R => e5_unlock_shape s t (e5_reachable_inv s R)). Qed.
 Print Assumptions C02c_release_shape.
 
+(* ---- transient store read failures ([AResumeReadFail t]) ---------------------------------------------------- *)
+(* after a failed read nothing of t is in table or queue (the one case in which t goes on -- a SaveMeta ignores the
+   failed GetTransaction -- is a metadata write: those never lock); if the failing read was not the balance read
+   under the locks ("locked") table, queue and every other thread are untouched *)
+Theorem C02c_read_failed_step : forall s t th s',
+  reachable s -> get_thread (threads s) t = Some th -> step s (AResumeReadFail t) = Some s' ->
+  ~ In t (v_queue s') /\ (forall h, In h (v_locks s') -> fst (fst h) <> t) /\
+  (t_pc th <> PLocked ->
+     v_locks s' = v_locks s /\ v_queue s' = v_queue s /\
+     forall u, u <> t -> get_thread (threads s') u = get_thread (threads s) u).
+Proof. exact (fun s t th s' R => e5_read_failed_step s t th s' (e5_reachable_inv s R)). Qed.
+Print Assumptions C02c_read_failed_step.
+
+(* the balance read under the locks fails: table, queue and every other thread are exactly those after a release
+   by t ([unlock t], the state C02c_release_shape describes); t itself is finished with the read error and has
+   built no entry *)
+Theorem C02c_read_failed_is_release : forall s t th s',
+  get_thread (threads s) t = Some th -> t_pc th = PLocked -> step s (AResumeReadFail t) = Some s' ->
+  v_locks s' = v_locks (to_state (gen s) (unlock t (of_state s))) /\
+  v_queue s' = v_queue (to_state (gen s) (unlock t (of_state s))) /\
+  (forall x, x <> t -> get_thread (threads s') x = get_thread (threads (to_state (gen s) (unlock t (of_state s)))) x) /\
+  exists thF, get_thread (threads s') t = Some thF /\ t_pc thF = PFinished /\ t_resp thF = Some (RErr EStoreRead) /\
+              t_entry thF = t_entry th.
+Proof. exact e5_read_failed_is_release. Qed.
+Print Assumptions C02c_read_failed_is_release.
+
+(* ... spelled out with the list G of C02c_release_shape (the intents the FIFO pass grants, in queue order): the
+   entries of t leave the table, the entries of G are appended in order; the queue loses exactly G; exactly the
+   threads of G get the grant flag, no other thread but t changes; t (a holder, hence not in G) is finished *)
+Theorem C02c_read_failed_release_shape : forall s t th s',
+  reachable s -> get_thread (threads s) t = Some th -> t_pc th = PLocked ->
+  step s (AResumeReadFail t) = Some s' ->
+  exists G,
+    v_locks s' = filter (fun h => negb (Nat.eqb (fst (fst h)) t)) (v_locks s) ++ map (e5_entry_of (threads s)) G /\
+    v_queue s' = filter (fun w => negb (mem_nat w G)) (v_queue s) /\
+    (forall w, In w G -> In w (v_queue s)) /\ ~ In t G /\
+    (forall x, x <> t -> get_thread (threads s') x =
+               if mem_nat x G then option_map e5_grant (get_thread (threads s) x) else get_thread (threads s) x) /\
+    exists thF, get_thread (threads s') t = Some thF /\ t_pc thF = PFinished /\ t_resp thF = Some (RErr EStoreRead).
+Proof. exact (fun s t th s' R => e5_read_failed_release_shape s t th s' (e5_reachable_inv s R)). Qed.
+Print Assumptions C02c_read_failed_release_shape.
+
 (* ---- non-vacuity: concrete schedules ([e5_show]: table, queue, key and reference reservations, and per thread
    pc, response, grant flag). Request 0 funds account 1 with 100; request 1 (1 -> 2, 40) takes the locks;
    request 2 (1 -> 3, 100, idempotency key 7, reference 9) needs account 1 as well ------------------------------ *)
@@ -185,4 +228,36 @@ Example C02c_ex_premises :
       end
   | None => False
   end.
+Proof. vm_compute. repeat split. Qed.
+
+(* (d) request 1 (1 -> 2, 100) is parked at "locked" holding accounts 1, 2; request 2 is queued behind it; the
+   balance read of request 1 fails: it answers EStoreRead, its entry leaves the table, the re-check grants
+   request 2 (table = the entry of 2 only, queue empty) *)
+Example C02c_ex_read_failure_grants_waiter :
+  e5_show (run init e5_rf_queued) =
+    Some ([(1, [1%N; 2%N], [1%N])], [2], [7%N], [9%N],
+          [(0, PFinished, Some (ROk (Some 0)), false); (1, PLocked, None, false); (2, PEnqueued, None, false)]) /\
+  e5_show (run init (e5_rf_queued ++ [AResumeReadFail 1])) =
+    Some ([(2, [1%N; 3%N], [1%N])], [], [7%N], [9%N],
+          [(0, PFinished, Some (ROk (Some 0)), false); (1, PFinished, Some (RErr EStoreRead), false);
+           (2, PEnqueued, None, true)]).
+Proof. vm_compute. repeat split. Qed.
+
+(* (e) failures before the lock request leave table and queue alone: the key lookup of request 2 fails (parked at
+   "ik.taken": EStoreRead, key released); the GetTransaction of a SaveMeta on the missing transaction 7 fails and
+   is ignored (the request goes on to "append.enter"; a metadata write holds nothing) *)
+Example C02c_ex_read_failure_before_lock :
+  e5_show (run init e5_rf_ik) =
+    Some ([(1, [1%N; 2%N], [1%N])], [], [7%N], [],
+          [(0, PFinished, Some (ROk (Some 0)), false); (1, PLocked, None, false); (2, PIkTaken, None, false)]) /\
+  e5_show (run init (e5_rf_ik ++ [AResumeReadFail 2])) =
+    Some ([(1, [1%N; 2%N], [1%N])], [], [], [],
+          [(0, PFinished, Some (ROk (Some 0)), false); (1, PLocked, None, false);
+           (2, PFinished, Some (RErr EStoreRead), false)]) /\
+  e5_show (run init e5_rf_sm) =
+    Some ([(1, [1%N; 2%N], [1%N])], [], [5%N], [],
+          [(0, PFinished, Some (ROk (Some 0)), false); (1, PLocked, None, false); (3, PIkLookup None, None, false)]) /\
+  e5_show (run init (e5_rf_sm ++ [AResumeReadFail 3])) =
+    Some ([(1, [1%N; 2%N], [1%N])], [], [5%N], [],
+          [(0, PFinished, Some (ROk (Some 0)), false); (1, PLocked, None, false); (3, PAppendEnter, None, false)]).
 Proof. vm_compute. repeat split. Qed.
